@@ -118,12 +118,36 @@ def gen_symbol_sweep(rng):
 def render(ws):
     lines = []
     for i, w in enumerate(ws):
-        lines += ['2020/01/%02d p%d' % (1 + i % 28, i), '    Assets:A%d    %s' % (i, w.text), '    Equity:Open', '']
+        lines += ['2020/01/%02d p%d' % (1 + i % 28, i), '    Assets:A%d    %s%s' % (i, w.text, getattr(w, 'cost_text', '')), '    Equity:Open', '']
     return '\n'.join(lines)
 
 
-FMT = ('%(account)|%(quoted(amount))|%(verif_rational(amount))|%(quoted(amount/7))|%(verif_rational(amount/7))|%(quoted(amount*0.333))|'
-       '%(verif_rational(amount*0.333))|%(justify(amount, 0, 0, false, false))\\n')      # the last field: as report columns show it
+def add_costs(rng, ws):
+    """some postings get a cost in another commodity of the journal, written with MORE decimals than that commodity's posting
+    amounts (and sometimes as a value expression `@ (1 * AMOUNT)`): a cost is not a posting amount and teaches the commodity
+    neither decimals nor style"""
+    plain = [w for w in ws if w.sym and not needs_quote(w.sym) and not getattr(w, 'dcomma', False) and not getattr(w, 'has_marks', False)]
+    for w in ws:
+        if not w.sym or w.value == 0 or rng.random() > 0.15:
+            continue
+        cands = [c for c in plain if c.sym != w.sym]
+        if not cands:
+            continue
+        c = rng.choice(cands)
+        digits = str(rng.randrange(1, 99999)) + '.' + ''.join(rng.choice('0123456789') for _ in range(rng.randrange(3, 9))) + rng.choice('123456789')
+        pre = c.text.lstrip('-').startswith(c.sym)
+        sep = ' ' if (' ' in c.text.strip()) else ''
+        amt = (c.sym + sep + digits) if pre else (digits + sep + c.sym)
+        form = rng.randrange(4)
+        op = rng.choice(['@', '@@'])
+        w.cost_text = ' %s %s' % (op, [amt, '(1 * %s)' % amt, '(%s / 1)' % amt, '(%s)' % amt][form])
+    return ws
+
+
+# strip(): a posting bought at a cost carries a computed lot annotation, which is not this property's subject
+A_ = 'strip(amount)'
+FMT = ('%(account)|%(quoted(' + A_ + '))|%(verif_rational(' + A_ + '))|%(quoted(' + A_ + '/7))|%(verif_rational(' + A_ + '/7))|%(quoted(' + A_ + '*0.333))|'
+       '%(verif_rational(' + A_ + '*0.333))|%(justify(' + A_ + ', 0, 0, false, false))\\n')      # the last field: as report columns show it
 
 
 def hexs(s):
@@ -178,6 +202,8 @@ def run(ctx, n_override=None):
     model_lines, journals = [], []
     for j in range(njournals):
         ws = gen_symbol_sweep(rng) if j % 40 == 7 else gen_journal(rng, rng.randrange(20, 60))
+        if j % 3 == 1:
+            add_costs(rng, ws)
         journals.append(ws)
         model_lines.append(lib.sx(['journal', 'j%d' % j] + [w.text.encode('utf-8') for w in ws]))
     mout = []
